@@ -12,7 +12,7 @@ use neurons::tensor::{Shape, Tensor};
 
 pub fn meta(ctx: &Ctx) -> Meta {
     Meta {
-        rule: format!("every seed p in 1..m-1 (m = 2^31-1; = every generator state once) x intervals {} for generate: value in [min,max] and within rounding of the reference minstd value; real shuffle from every state for lengths {}; bands of 2^17 states at both ends of the state range: shuffle lengths 1..8,10,100,1000 and an interval grid incl. non-dyadic bounds; stride-4099 cover of all states for shuffle lengths 1..8; seed list incl. 0, m, 2^32, 2^64/48271+-2, 1.7e18, 2^63, u64::MAX; all 70 interleavings of 4+4 calls on two equal-seed generators; Tensor::random over all shapes of rank 1-4 with extents <= 3. Non-trivial = every state is a distinct case", if ctx.tier.thorough() { "{(0,1),(-1,1),(0,2),(-0.5,0.5)}" } else { "{(0,1),(-1,1)}" }, if ctx.tier.thorough() { "1..8" } else { "1..2" }),
+        rule: format!("every seed p in 1..m-1 (m = 2^31-1; = every generator state once) x intervals {} for generate: value in [min,max] and within rounding of the reference minstd value; real shuffle from every state for lengths {}; bands of 2^17 states at both ends of the state range: shuffle lengths 1..8,10,100,1000 and an interval grid incl. non-dyadic bounds; stride-4099 cover of all states for shuffle lengths 1..8; lengths 4096, 4097, 5000, 10^4, 65537 from the 128 extreme states and a sparse cover; seed list incl. 0, m, 2^32, 2^64/48271+-2, 1.7e18, 2^63, u64::MAX; all 70 interleavings of 4+4 calls on two equal-seed generators; Tensor::random over all shapes of rank 1-4 with extents <= 3. Non-trivial = every state is a distinct case", if ctx.tier.thorough() { "{(0,1),(-1,1),(0,2),(-0.5,0.5)}" } else { "{(0,1),(-1,1)}" }, if ctx.tier.thorough() { "1..8" } else { "1..2" }),
         bound: "complete over the 2^31-2 non-zero states for the listed intervals and lengths".into(),
         exhaustive: true,
         assumptions: vec![
@@ -412,6 +412,28 @@ pub fn run(ctx: &Ctx) -> Report {
         rep.count("stride_cover_states", stride.len() as u64);
     }
 
+    // beyond the small bound: long vectors (above and around 4096, 65536) from the extreme states and a sparse cover
+    {
+        let mut seeds: Vec<u64> = (1..=64u64).chain((M - 64)..M).map(seed_for_state).collect();
+        seeds.extend((1..M).step_by(if thorough { 9_999_991 } else { 99_999_989 }));
+        let lens: Vec<usize> = if thorough { vec![4096, 4097, 5000, 8192, 10_000, 65_536, 65_537, 150, 1 << 17] } else { vec![4096, 4097, 5000, 10_000, 65_537] };
+        let parts = par_map(&seeds, |_, seed| {
+            let mut r = Report::new();
+            let mut buf = Vec::new();
+            for &len in &lens {
+                r.transitions += 1;
+                let res = guard(|| check_shuffle(*seed, len, &mut buf)).unwrap_or_else(|e| {
+                    Some(("C18 shuffle panics".into(), format!("create({}).shuffle(vector of length {}): {}", seed, len, crate::util::first_line(&e))))
+                });
+                if let Some((k, w)) = res {
+                    r.violate(k, w, &Kv::new().put("op", "shuffle").put("seed", *seed).put("len", len));
+                }
+            }
+            r
+        });
+        rep.merge_all(parts);
+        rep.count("long_vector_seeds", seeds.len() as u64);
+    }
     for s in special_seeds() {
         check_special(s, &mut rep);
     }
